@@ -111,6 +111,24 @@ CHECKS = {
         "Trusted: numpy integer linear algebra; the float64 SC reference after its own self-test unit.",
         "3 C11",
     ),
+    "C09": (
+        "runtime monitoring with fault injection at a stage boundary: real ChannelCodeModel chains over PerfectChannel and harness LambdaChannels that flip <=t coded bits per block or displace every symbol by <d_min/2; exact message-equality oracle; forward-hook stage-order log",
+        "Hundreds of (code, decoder) x (modulator, demodulator) chains (540 quick), messages exhaustive for k<=8, every single and pair flip position for n<=15, displacement at 0.5 and 0.98 of d_min/2, batch sizes 1 and 4, hard and soft paths. Exploration / fault enumeration over small blocks.",
+        "Trusted: reference true distance (vk.oracles.gf2) and effective-constellation d_min (vk.oracles.refmod). Differential schemes use a harness preamble wrapper around the real modulator.",
+        "3 C09",
+    ),
+    "C19": (
+        "runtime monitoring: autograd sanitizers (anomaly mode, in-place error trap) plus a finite-difference oracle under a frozen RNG for every analog channel and power constraint; shape / range / bandwidth-ratio / per-parameter gradient monitors on the published DeepJSCC architectures",
+        "All channels x power/SNR x real/complex x 2-D/4-D, all constraints incl. active PAPR clipping (two-epsilon and discrete-state kink guards), six architectures x image sizes {16,32,48,64} x batch sizes {1,2,5}. Exploration.",
+        "Trusted: central finite differences in float64 at eps=1e-3 with 5e-3 relative tolerance; 'on path' decided over three seeds.",
+        "3 C19",
+    ),
+    "C20": (
+        "runtime monitoring: differential purity monitor - batch result vs stack of batch-of-1 results under every permutation, layout-or-raise monitor, repeat / interleaved-object history monitor, input mutation sanitizer (_version + values)",
+        "58 components (encoders, 20 decoders/inverses, memoryless modems hard+soft, four constraints) x batches of 1..6 in every permutation (B<=4) x four extra layouts x call histories. Exploration with exhaustive permutations for small batches.",
+        "Trusted: the (1,n) batch-of-one evaluation as per-sample reference.",
+        "3 C20",
+    ),
 }
 
 ALL = [f"C{i:02d}" for i in range(1, 21)]
